@@ -421,5 +421,6 @@ func (p *c13) Assumptions() []string {
 }
 
 func (p *c13) Floors(tier string) map[string]int64 {
-	return map[string]int64{"evaluations": 5_000_000, "distinct_nontrivial": 1_000_000}
+	return map[string]int64{"evaluations": 5_000_000, "distinct_nontrivial": 1_000_000,
+		"class:whole-strings": 1, "class:long-value": 100, "class:concurrent-callers": 6, "class:pair-row": 1, "class:aliasing-block": 1, "class:invalid-bytes": 1}
 }
